@@ -31,7 +31,7 @@ pub fn big_of_cnf(clauses: &[Clause], n: usize) -> Big {
 /// (name, number of variables, clauses); every family is cut at several lengths
 pub fn families(ctx: &Ctx) -> Vec<(String, usize, Vec<Clause>)> {
     let mut out: Vec<(String, usize, Vec<Clause>)> = Vec::new();
-    let cuts: Vec<usize> = ctx.tier.pick(vec![9, 15, 16, 17, 31, 32, 33, 34, 40, 63, 64, 65], (8..=70).collect());
+    let cuts: Vec<usize> = ctx.tier.pick(vec![9, 11, 15, 16, 17, 23, 31, 32, 33, 34, 37, 40, 45, 50, 57, 63, 64, 65], (8..=70).collect());
     // (A) all positive two-literal clauses over 9 variables in lexicographic order (36), then the mixed ones
     {
         let n = 9;
@@ -195,8 +195,93 @@ pub fn bottom_up(ctx: &Ctx) -> Report {
         }
         rep
     });
-    r.bound("long_formulas", json!({"families": "two-literal clauses over 9 variables (prefixes and suffixes), rule-defined 3-clauses over 8 and 10 variables, wide clauses of 4-7 literals, independent blocks with and without bridges", "clause_counts": ctx.tier.pick("9, 15-17, 31-34, 40, 63-65", "8 to 70"), "formulas": fams.len(), "compilers": "BDD builder under 3 orders (+ compiling under 4 partial assignments, compared with compiling then conditioning), SDD builder on right-linear and balanced vtrees"}));
+    r.bound("long_formulas", json!({"families": "two-literal clauses over 9 variables (prefixes and suffixes), rule-defined 3-clauses over 8 and 10 variables, wide clauses of 4-7 literals, independent blocks with and without bridges", "clause_counts": ctx.tier.pick("9, 11, 15-17, 23, 31-34, 37, 40, 45, 50, 57, 63-65", "8 to 70"), "formulas": fams.len(), "compilers": "BDD builder under 3 orders (+ compiling under 4 partial assignments, compared with compiling then conditioning), SDD builder on right-linear and balanced vtrees"}));
     r.add_extra("long_formula_compilations", r.transitions);
+    r
+}
+
+/// C05: very wide clauses. One clause over x0..x_{w-1} (w = 9 .. 40, polarity by rule) together with a short
+/// clause over two further variables; 2^n-bit tables are out of reach at 42 variables, so every compiled diagram
+/// is evaluated on the clause's single falsifying assignment and on every assignment at Hamming distance 1 and 2
+/// from it (a dropped, duplicated or flipped literal of a wide clause changes the value on one of those).
+pub fn wide_clauses(ctx: &Ctx) -> Report {
+    let widths: Vec<usize> = (9..=ctx.tier.pick(40, 60)).collect();
+    let mut r = par_run(ctx, &widths, |_, w| {
+        let mut rep = Report::default();
+        rep.exhaustive = true;
+        let w = *w;
+        let n = w + 2;
+        for pat in 0..2usize {
+            let wide: Clause = (0..w).map(|v| (if pat == 0 { v } else { (v * 7 + 3) % w }, if pat == 0 { v % 3 != 0 } else { v % 2 == 0 })).collect();
+            let mut vs: Vec<usize> = wide.iter().map(|l| l.0).collect();
+            vs.sort();
+            vs.dedup();
+            if vs.len() != w {
+                continue;
+            }
+            let clauses: Vec<Clause> = vec![wide.clone(), vec![(w, true), (w + 1, false)]];
+            let cnf = to_cnf(&clauses);
+            let eval = |a: &[bool]| clauses.iter().all(|c| c.iter().any(|&(v, p)| a[v] == p));
+            // the falsifying assignment of the wide clause (the short clause satisfied), and its neighbours
+            let mut base: Vec<bool> = vec![true; n];
+            for &(v, p) in wide.iter() {
+                base[v] = !p;
+            }
+            let mut assignments: Vec<Vec<bool>> = vec![base.clone()];
+            for i in 0..n {
+                let mut a = base.clone();
+                a[i] = !a[i];
+                assignments.push(a.clone());
+                for j in i + 1..n {
+                    let mut c = a.clone();
+                    c[j] = !c[j];
+                    assignments.push(c);
+                }
+            }
+            let case = json!({"kind": "long_cnf", "family": format!("wide clause of {} literals", w)});
+            rep.states += 1;
+            rep.traces += 1;
+            let labs: Vec<VarLabel> = (0..n).map(|v| VarLabel::new(v as u64)).collect();
+            for (vn, vt) in [("right-linear", VTree::right_linear(&labs)), ("even_split(_, 2)", VTree::even_split(&labs, 2))] {
+                rsdd::verif::set_table_capacity(4);
+                let b = CompressionSddBuilder::new(vt);
+                rsdd::verif::set_table_capacity(0);
+                rep.transitions += 1;
+                match guarded(|| b.compile_cnf(&cnf)) {
+                    Err(e) => rep.violation("compile:sdd-cnf-panic", format!("a clause of {} literals (pattern {}) and a short clause, {} vtree: compile_cnf panicked: {}", w, pat, vn, e), case.clone()),
+                    Ok(p) => {
+                        for a in assignments.iter() {
+                            rep.evaluations += 1;
+                            if crate::walk::sdd_eval_memo(p, a) != eval(a) {
+                                rep.violation("compile:sdd-cnf", format!("a clause of {} literals (pattern {}) and a short clause, {} vtree: the compiled SDD is {} on an assignment on which the formula is {} (the wide clause's falsifying assignment with at most two variables flipped)", w, pat, vn, !eval(a), eval(a)), case.clone());
+                                break;
+                            }
+                        }
+                    }
+                }
+            }
+            for order in [(0..n).collect::<Vec<usize>>(), (0..n).rev().collect()] {
+                let b = small_builder(&order, 4);
+                rep.transitions += 1;
+                match guarded(|| b.compile_cnf(&cnf)) {
+                    Err(e) => rep.violation("compile:bdd-cnf-panic", format!("a clause of {} literals (pattern {}) and a short clause: compile_cnf panicked: {}", w, pat, e), case.clone()),
+                    Ok(p) => {
+                        for a in assignments.iter() {
+                            rep.evaluations += 1;
+                            let bits = a.iter().enumerate().fold(0usize, |acc, (i, &x)| acc | ((x as usize) << i));
+                            if crate::walk::bdd_eval(p, bits) != eval(a) {
+                                rep.violation("compile:bdd-cnf", format!("a clause of {} literals (pattern {}) and a short clause, order starting {:?}: the compiled BDD is {} on an assignment on which the formula is {}", w, pat, &order[..3], !eval(a), eval(a)), case.clone());
+                                break;
+                            }
+                        }
+                    }
+                }
+            }
+        }
+        rep
+    });
+    r.bound("wide_clauses", json!({"widths": format!("9 to {}", ctx.tier.pick(40, 60)), "patterns": 2, "compilers": "SDD builder on right-linear and even_split(_, 2) vtrees, BDD builder in label order and reversed", "oracle": "clause evaluation on the falsifying assignment of the wide clause and all assignments at Hamming distance <= 2 from it"}));
+    r.add_extra("wide_clause_compilations", r.transitions);
     r
 }
 
@@ -366,7 +451,13 @@ fn twice(p: BddPtr) -> Option<String> {
 
 pub fn replay(ctx: &Ctx, case: &Value, topdown: bool) -> Option<Report> {
     if case["kind"].as_str() == Some("long_cnf") {
-        Some(if topdown { if case.get("wide").is_some() { top_down_wide(ctx) } else { top_down(ctx) } } else { bottom_up(ctx) })
+        Some(if topdown {
+            if case.get("wide").is_some() { top_down_wide(ctx) } else { top_down(ctx) }
+        } else {
+            let mut r = bottom_up(ctx);
+            r.merge(wide_clauses(ctx));
+            r
+        })
     } else {
         None
     }
